@@ -15,8 +15,9 @@ Definition xml_name (n : pystr) : bool :=
 (** attribute names: additionally not the reserved word xmlns (that would be a declaration) *)
 Definition attr_name_ok (k : pystr) : bool := xml_name k && negb (pystr_eqb k xmlns_str).
 
-(** text values: XML 1.0 characters except carriage return *)
-Definition text_ok (x : pystr) : bool := forallb doc_char_ok x.
+(** text values: XML 1.0 characters (the quantifier excludes the carriage return; since the
+    exporters write it as a character reference the theorems do not need that) *)
+Definition text_ok (x : pystr) : bool := forallb is_xml_char x.
 Definition otext_ok (o : option pystr) : bool := match o with None => true | Some x => text_ok x end.
 (** attribute values: any XML 1.0 characters (tab, newline and CR are written as references) *)
 Definition value_ok (x : pystr) : bool := forallb is_xml_char x.
